@@ -102,6 +102,13 @@ def run_history(case, ctx, mon):
             mon.count("saveloads")
             mon.count("saveloads_shm" if ev[2] else "saveloads_mem")
             touched = [i]
+        elif ev[0] == "selfmerge":
+            i = ev[1]
+            for _ in range(ev[2]):
+                mon.api(real[i].merge, real[i])
+            ghost[i] = Counter({k: v * 2 ** ev[2] for k, v in ghost[i].items()})
+            mon.count("self_merge_runs")
+            touched = [i]
         elif ev[0] == "copy":
             i = ev[1]
             if not hasattr(real[i], "shm"):
